@@ -110,3 +110,15 @@ next_responder_harness!(next_responder_n3, 3);
 next_responder_harness!(next_responder_n4, 4);
 //@K props=C02 tier=thorough label=bnd feat=std fn=CallPattern::next_responder bound=|responders|=5
 next_responder_harness!(next_responder_n5, 5);
+
+/// helper: a matcher without function but with a source location (line symbolic in callers)
+pub(crate) fn mk_matcher(line: Option<u32>) -> DynInputMatcher {
+    DynInputMatcher {
+        dyn_matching_fn: None,
+        matcher_debug: line.map(|line| debug::InputMatcherDebug { pat_debug: "", file: "f.rs", line }),
+    }
+}
+
+pub(crate) fn mk_pattern_with(m: DynInputMatcher, counter: counter::CallCounter) -> CallPattern {
+    CallPattern { input_matcher: m, responders: Vec::new(), ordered_call_index_range: 0..0, call_counter: counter }
+}
